@@ -24,7 +24,7 @@ type c09params struct {
 }
 
 func init() {
-	report.Register("C09", report.Check{Level: "model_checking", QuickBudget: 150 * time.Second, ThoroughBudget: 40 * time.Minute, Run: runC09})
+	report.Register("C09", report.Check{Level: "model_checking", QuickBudget: 240 * time.Second, ThoroughBudget: 25 * time.Minute, Run: runC09})
 	explore.Register("C09.hist", func(p string) explore.Harness {
 		var pr c09params
 		json.Unmarshal([]byte(p), &pr)
